@@ -18,6 +18,7 @@ import (
 	"os"
 	"runtime"
 	"sync"
+	"sync/atomic"
 	"testing"
 	"time"
 )
@@ -90,6 +91,8 @@ type vfC07Vec struct {
 	Wire  []int      `json:"wire"`  // after the first round (writer index 1.. per byte)
 	Res2  vfC07Res   `json:"res2"`  // a further frame (length 2, writer index 9) written afterwards
 	Wire2 []int      `json:"wire2"` // bytes that further write put on the socket
+	Res3  vfC07Res   `json:"res3"`  // and one more (length 2, writer index 10), a coalescing window later
+	Wire3 []int      `json:"wire3"`
 	Stuck int        `json:"stuck"`
 }
 
@@ -117,7 +120,7 @@ func vfC07Frame(writer, n int) []byte {
 }
 
 func vfC07RunCase(c vfC07Case) vfC07Vec {
-	v := vfC07Vec{ID: c.ID, Mode: c.Mode, Lens: c.Lens, K: c.K, Res: []vfC07Res{}, Wire: []int{}, Wire2: []int{}}
+	v := vfC07Vec{ID: c.ID, Mode: c.Mode, Lens: c.Lens, K: c.K, Res: []vfC07Res{}, Wire: []int{}, Wire2: []int{}, Wire3: []int{}}
 	sock := &vfC07Sock{limit: c.K, failErr: vfC07Fail}
 	ctx := context.Background()
 	if c.Mode == "direct" {
@@ -133,6 +136,9 @@ func vfC07RunCase(c vfC07Case) vfC07Vec {
 		got, err := w.writeContext(ctx, vfC07Frame(9, 2))
 		v.Res2 = vfC07Res{got, vfC07ErrClass(err)}
 		v.Wire2 = sock.Wire()[len(v.Wire):]
+		got, err = w.writeContext(ctx, vfC07Frame(10, 2))
+		v.Res3 = vfC07Res{got, vfC07ErrClass(err)}
+		v.Wire3 = sock.Wire()[len(v.Wire)+len(v.Wire2):]
 		return v
 	}
 	quit := make(chan struct{})
@@ -140,9 +146,12 @@ func vfC07RunCase(c vfC07Case) vfC07Vec {
 	enq := make(chan struct{}, 16)
 	flushed := make(chan struct{}, 16)
 	timerC := make(chan time.Time)
+	// the flush timer is the harness': it fires exactly when the flusher armed it (a tick the flusher
+	// did not ask for would be an event the real timer never produces)
+	var armed int32
 	w := &writeCoalescer{writeCh: make(chan writeRequest), c: sock, quit: quit, timeout: time.Second,
 		testEnqueuedHook: func() { enq <- struct{}{} }, testFlushedHook: func() { flushed <- struct{}{} }}
-	go w.writeFlusherImpl(timerC, func() {})
+	go w.writeFlusherImpl(timerC, func() { atomic.StoreInt32(&armed, 1) })
 	round := func(frames [][]byte) ([]vfC07Res, bool) {
 		res := make([]vfC07Res, len(frames))
 		var wg sync.WaitGroup
@@ -159,18 +168,35 @@ func vfC07RunCase(c vfC07Case) vfC07Vec {
 			case <-time.After(300 * time.Millisecond):
 			}
 		}
-		select {
-		case timerC <- time.Now():
+		// the flusher either refuses a request on receipt (its writer returns) or keeps it and arms
+		// the timer: wait for one of the two, then let the timer fire if it was armed
+		alldone := make(chan struct{})
+		go func() { wg.Wait(); close(alldone) }()
+		deadline := time.Now().Add(10 * time.Second)
+		for {
+			if atomic.CompareAndSwapInt32(&armed, 1, 0) {
+				select {
+				case timerC <- time.Now():
+					select {
+					case <-flushed:
+					case <-time.After(10 * time.Second):
+						return res, false
+					}
+				case <-time.After(10 * time.Second):
+					return res, false
+				}
+				continue
+			}
 			select {
-			case <-flushed:
-			case <-time.After(5 * time.Second):
+			case <-alldone:
+				return res, true
+			default:
+			}
+			if time.Now().After(deadline) {
 				return res, false
 			}
-		case <-time.After(2 * time.Second):
-			// flusher not listening (all writers were refused without being queued)
+			time.Sleep(50 * time.Microsecond)
 		}
-		ok, _ := vfWithin(5*time.Second, wg.Wait)
-		return res, ok
 	}
 	var frames [][]byte
 	for i, n := range c.Lens {
@@ -191,6 +217,12 @@ func vfC07RunCase(c vfC07Case) vfC07Vec {
 		v.Stuck = 1
 	}
 	v.Wire2 = sock.Wire()[len(v.Wire):]
+	res3, ok3 := round([][]byte{vfC07Frame(10, 2)})
+	v.Res3 = res3[0]
+	if !ok3 {
+		v.Stuck = 1
+	}
+	v.Wire3 = sock.Wire()[len(v.Wire)+len(v.Wire2):]
 	return v
 }
 
